@@ -197,6 +197,22 @@ def check_scale(c):
             idx = np.arange(L) % len(I)
             res.check(np.array_equal(Pb, Ps[idx]) and np.array_equal(Jb, Ib) and np.array_equal(Sb, Ss[idx]), 'long_batch', dict(c, kind=kind, rows=L),
                       'a batch of %d rows is not the row-wise repetition of the short batch' % L)
+    # option arrays passed as integer / float ndarrays to single-index calls, repeatedly: the caller's arrays are inputs, not scratch
+    for kind in ('uni', 'cheb'):
+        res.ev()
+        na = np.array([n] * d, dtype=np.int64)
+        aa, ba = np.array(a, dtype=float), np.array(b, dtype=float)
+        with warnings.catch_warnings():
+            warnings.simplefilter('ignore')
+            Pref = teneva.ind_to_poi(I, a, b, [n] * d, kind)
+            good = True
+            for rep in range(3):
+                for j in (0, len(I) - 1):
+                    p1 = teneva.ind_to_poi(I[j], aa, ba, na, kind)
+                    j1 = teneva.poi_to_ind(p1, aa, ba, na, kind)
+                    good = good and np.array_equal(p1, Pref[j]) and np.array_equal(j1, I[j])
+        res.check(good and np.array_equal(na, [n] * d) and np.array_equal(aa, a) and np.array_equal(ba, b), 'opts.ndarray_repeat', dict(c, kind=kind),
+                  'repeated single-index calls with ndarray options change their answers (or the option arrays)')
     # inconsistent lengths
     for args in ((a + [0.0], b, [n] * d), (a, b[:-1] if d > 1 else b + [1.0], [n] * d), (a, b, [n] * (d + 1))):
         res.ev()
